@@ -135,6 +135,7 @@ type pathState struct {
 	hashConc   []hashConc
 	sleeps     int
 	crashed    bool
+	absLoc     *value
 	vector     *Vector
 	wantedVec  bool
 	schedFixed bool
